@@ -64,6 +64,8 @@ LINKS_TREE = [
     {"p": "r/c/h3", "k": "hard", "to": "r/b/h1"}, {"p": "r/c/k2", "k": "file", "c": ["base", 50, 9]},
 ]
 LINKS_DROPPABLE = ["r/b/h1", "r/b/h2", "r/c/h3", "r/c/k2"]
+SYMLINK_TREE = [{"p": "r/a/keep", "k": "file", "c": ["base", 50, 9]}, {"p": "r/b/dup", "k": "file", "c": ["base", 50, 9]},
+                {"p": "r/c/L", "k": "sym", "to": "../b/dup"}]
 
 
 def cases(tier, seed):
@@ -93,6 +95,13 @@ def cases(tier, seed):
             for op in ("remove", "link", "softlink", "dedupe", "move"):
                 out.append({"ngroups": 2, "locked": locked, "mode": mode, "op": op, "no_lock": False,
                             "droppable": ["r/b/g0_1", "r/b/g1_1", "r/c/g0_2", "r/c/g1_2"], "lock_unsupported": unsup})
+    # a reported symbolic link (-S) to a locked file: removing / replacing / moving the LINK does not touch the file,
+    # but `dedupe` clones THROUGH the link - over the locked file
+    for mode in ("write", "read"):
+        for op in ("remove", "link", "softlink", "dedupe", "move"):
+            for locked in (["r/b/dup"], []):
+                out.append({"ngroups": 0, "locked": locked, "mode": mode, "op": op, "no_lock": False, "symlink_tree": True,
+                            "droppable": ["r/b/dup", "r/c/L"], "gargs": ["-S"]})
     # a locked file that has several names among the droppable members (hard links; report with and without -H)
     for mode in ("write", "read"):
         for sub in ([], ["r/b/h1"], ["r/b/h2"], ["r/c/h3"], ["r/c/k2"], ["r/b/h1", "r/c/k2"]):
@@ -190,7 +199,7 @@ def evaluate(case):
     viol = []
     feat = {"op": case["op"], "lock_type": case["mode"], "no_lock": case["no_lock"]}
     with C.Scratch() as sc:
-        C.make_tree(sc.tree, LINKS_TREE if case.get("links") else tree(case["ngroups"]))
+        C.make_tree(sc.tree, SYMLINK_TREE if case.get("symlink_tree") else LINKS_TREE if case.get("links") else tree(case["ngroups"]))
         report = D.make_report(sc, case.get("gargs", []), ["r"])
         before = C.inventory(sc.tree)
         holder = None
@@ -220,7 +229,8 @@ def evaluate(case):
                 if case.get("lock_unsupported"):
                     xenv["FCSHIM_LOCK_UNSUPPORTED"] = case["lock_unsupported"]
                     feat["locks_unsupported_for_another_group"] = True
-                r = S.run_with_shim(sc, dargs, [sc.tree, target], "m", stdin=report, env_extra=xenv)
+                r = S.run_with_shim(sc, dargs, [sc.tree, target], "m", stdin=report, env_extra=xenv,
+                                    emulate_clone=bool(case.get("symlink_tree")))
             finally:
                 if loop:
                     loop.__exit__()
@@ -238,7 +248,13 @@ def evaluate(case):
             for ev in r["events"]:
                 if ev.call in ("open", "write"):
                     continue      # the lock probe opens the file for writing; nothing is written
-                hit = [q for q in S.mutated_paths(ev) if q in locked_paths]
+                touched = list(S.mutated_paths(ev))
+                if ev.call in ("ficlone", "write", "truncate", "copy_file_range", "sendfile"):
+                    # these calls act on the file a symbolic link points to
+                    for q in list(touched):
+                        if before.get(q, {}).get("type") == "sym":
+                            touched.append(os.path.normpath(os.path.join(os.path.dirname(q), before[q]["target"])))
+                hit = [q for q in touched if q in locked_paths]
                 if hit and ev.ret >= 0:
                     viol.append(dict(feat, kind="locked_file_touched_temporarily",
                                      detail="%s is locked by another process, yet `%s` issued %r (the end state may look untouched)" % (
@@ -249,7 +265,7 @@ def evaluate(case):
             b, a = before[p], after.get(p)
             # a lock is held on the file (inode): every name of it is locked
             locked = b["ino"] in locked_inodes and not case["no_lock"]
-            untouched = a is not None and (a["type"], a["ino"], a.get("sha")) == (b["type"], b["ino"], b["sha"])
+            untouched = a is not None and (a["type"], a["ino"], a.get("sha")) == (b["type"], b["ino"], b.get("sha"))
             if locked:
                 if not untouched:
                     viol.append(dict(feat, kind="locked_file_processed",
